@@ -1,11 +1,13 @@
 use crate::engine::Ctx;
 
+pub mod c07;
 pub mod c09;
 pub mod c10;
 pub mod c11;
 
 pub fn run(ctx: &Ctx) -> i32 {
     match ctx.prop.as_str() {
+        "C07" => c07::run(ctx),
         "C09" => c09::run(ctx),
         "C10" => c10::run(ctx),
         "C11" => c11::run(ctx),
@@ -29,6 +31,7 @@ pub fn replay(ctx: &Ctx, path: &str) -> i32 {
         None => text.clone(),
     };
     match ctx.prop.as_str() {
+        "C07" => c07::replay(ctx, &body),
         "C09" => c09::replay(ctx, &body),
         "C10" => c10::replay(ctx, &body),
         "C11" => c11::replay(ctx, &body),
